@@ -574,6 +574,148 @@ pub fn check_loopback(c: &LoopCase) -> Outcome {
     }
 }
 
+/// Several requests on ONE HTTP/1.1 keep-alive connection to the real listener: one to three requests that must be refused (or that
+/// address other paths), each answered exactly as on a connection of its own, and then a fully valid upgrade on the same connection,
+/// which must get its 101 (accept hash, protocol) and a tunnel that carries a stream. The gate judges a request, not the
+/// connection's history (reverse proxies reuse upstream connections).
+#[derive(Clone, Debug, Hash, PartialEq, Eq, Serialize, Deserialize)]
+pub struct SeqCase {
+    pub timeout: u8,
+    pub psk: bool,
+    pub obfs: bool,
+    /// earlier requests on the connection: 1 wrong PSK, 2 no key, 3 another protocol revision, 4 POST, 5 Upgrade: h2c, 6 no PSK header
+    /// at all, 7 GET /health, 8 GET /nothing-here (plain request without upgrade headers), 9 the valid upgrade headers on /wsx
+    pub earlier: Vec<u8>,
+}
+
+/// read one response (head + content-length body) from an open connection
+async fn read_response(s: &mut tokio::net::TcpStream) -> Result<(String, Vec<String>, Vec<u8>), String> {
+    use tokio::io::AsyncReadExt;
+    let mut head = vec![];
+    let mut b = [0u8; 1];
+    while !head.ends_with(b"\r\n\r\n") {
+        let n = tokio::time::timeout(std::time::Duration::from_secs(10), s.read(&mut b)).await.map_err(|_| "no response within 10 s".to_string())?.map_err(|e| e.to_string())?;
+        if n == 0 {
+            return Err(format!("connection closed after {} bytes of response", head.len()));
+        }
+        head.push(b[0]);
+        if head.len() > 65536 {
+            return Err("response head too long".into());
+        }
+    }
+    let text = String::from_utf8_lossy(&head[..head.len() - 4]).to_string();
+    let mut lines = text.split("\r\n");
+    let status = lines.next().unwrap_or("").to_string();
+    let mut headers: Vec<String> = lines.map(|l| l.to_string()).filter(|l| !l.to_ascii_lowercase().starts_with("date:")).collect();
+    headers.sort();
+    let clen = headers.iter().find_map(|h| h.to_ascii_lowercase().strip_prefix("content-length:").map(|v| v.trim().parse::<usize>().unwrap_or(0))).unwrap_or(0);
+    let mut body = vec![0u8; clen];
+    if clen > 0 {
+        tokio::time::timeout(std::time::Duration::from_secs(10), s.read_exact(&mut body)).await.map_err(|_| "body incomplete after 10 s".to_string())?.map_err(|e| e.to_string())?;
+    }
+    Ok((status, headers, body))
+}
+
+pub fn check_keepalive_sequence(c: &SeqCase) -> Outcome {
+    use penguin_mux::timing::OptionalDuration;
+    use tokio::io::{AsyncReadExt, AsyncWriteExt};
+    let fx = fixture();
+    let r: Result<(), (String, String)> = fx.rt.block_on(async {
+        let h = |e: String| ("c14-harness".to_string(), e);
+        let psk: &'static HeaderValue = Box::leak(Box::new(HeaderValue::from_static(PSK)));
+        let timeout = match c.timeout {
+            0 => OptionalDuration::NONE,
+            1 => OptionalDuration::from_secs(60),
+            _ => OptionalDuration::from_secs(2),
+        };
+        let state = State::new().await.map_err(|e| h(e.to_string()))?.with_ws_psk(if c.psk { Some(psk) } else { None }).obfs(c.obfs).with_not_found_resp(NOT_FOUND_BODY).with_backend(None).with_backend_http2_support(false).with_http_timeout(timeout).with_tls_timeout(timeout);
+        let listener = tokio::net::TcpListener::bind("127.0.0.1:0").await.map_err(|e| h(e.to_string()))?;
+        let port = listener.local_addr().unwrap().port();
+        let server = tokio::spawn(rusty_penguin_lib::server::run_listener(listener, None, state));
+        let request = |kind: u8| -> String {
+            let path = match kind {
+                7 => "/health",
+                8 => "/nothing-here",
+                9 => "/wsx",
+                _ => "/ws",
+            };
+            if kind == 7 || kind == 8 {
+                return format!("GET {path} HTTP/1.1\r\nhost: localhost\r\n\r\n");
+            }
+            let mut t = format!("{} {path} HTTP/1.1\r\nhost: localhost\r\nconnection: upgrade\r\nupgrade: {}\r\nsec-websocket-version: 13\r\nsec-websocket-protocol: {}\r\n", if kind == 4 { "POST" } else { "GET" }, if kind == 5 { "h2c" } else { "websocket" }, if kind == 3 { "penguin-v6" } else { "penguin-v7" });
+            if kind != 2 {
+                t.push_str(&format!("sec-websocket-key: {KEY}\r\n"));
+            }
+            if kind == 1 {
+                t.push_str("x-penguin-psk: not the key\r\n");
+            } else if c.psk && kind != 6 {
+                t.push_str(&format!("x-penguin-psk: {PSK}\r\n"));
+            }
+            if kind == 4 {
+                t.push_str("content-length: 0\r\n");
+            }
+            t.push_str("\r\n");
+            t
+        };
+        let res = async {
+            let mut s = tokio::net::TcpStream::connect(("127.0.0.1", port)).await.map_err(|e| h(e.to_string()))?;
+            for (n, kind) in c.earlier.iter().copied().enumerate() {
+                // without a configured PSK the kinds 1 and 6 are valid upgrades: they would end the HTTP phase of this connection
+                let kind = if !c.psk && (kind == 1 || kind == 6) { 2 } else { kind };
+                let req = request(kind);
+                s.write_all(req.as_bytes()).await.map_err(|e| ("c14-keepalive:connection-lost".to_string(), format!("request {n} (kind {kind}) could not be written on the kept-alive connection: {e}")))?;
+                let got = read_response(&mut s).await.map_err(|e| ("c14-keepalive:connection-lost".to_string(), format!("request {n} (kind {kind}) on the kept-alive connection: {e}")))?;
+                let fresh = raw_exchange(port, req.as_bytes()).await.map_err(|e| ("c14-loopback:no-response".to_string(), format!("request kind {kind} on a connection of its own: {e}")))?;
+                if got != fresh {
+                    return Err(("c14-keepalive:answer-depends-on-history".to_string(), format!("request {n} (kind {kind}) was answered {got:?} as the {}th request of a connection but {fresh:?} on a connection of its own", n + 1)));
+                }
+                if got.0.contains(" 101") {
+                    return Err(("c14-invalid-upgraded:loopback".to_string(), format!("request kind {kind} was answered {}", got.0)));
+                }
+            }
+            // now the valid upgrade, on the same connection
+            s.write_all(request(0).as_bytes()).await.map_err(|e| ("c14-keepalive:connection-lost".to_string(), format!("the valid upgrade could not be written after {:?}: {e}", c.earlier)))?;
+            let got = read_response(&mut s).await.map_err(|e| ("c14-keepalive:valid-rejected".to_string(), format!("valid upgrade after {:?} on the same connection: {e}", c.earlier)))?;
+            if !got.0.contains(" 101") {
+                return Err(("c14-keepalive:valid-rejected".to_string(), format!("a fully valid upgrade request was answered {:?} because of the earlier requests {:?} on the same connection", got.0, c.earlier)));
+            }
+            let want_accept = format!("sec-websocket-accept: {}", vf_ref::ws::accept_hash(KEY.as_bytes()));
+            if !got.1.iter().any(|l| l.to_ascii_lowercase() == want_accept.to_ascii_lowercase() && l.ends_with(&vf_ref::ws::accept_hash(KEY.as_bytes()))) {
+                return Err(("c14-101-accept-hash".to_string(), format!("101 without the RFC 6455 accept hash of the key: {:?}", got.1)));
+            }
+            if !got.1.iter().any(|l| l.to_ascii_lowercase() == "sec-websocket-protocol: penguin-v7") {
+                return Err(("c14-loopback:101-without-protocol".to_string(), format!("101 headers: {:?}", got.1)));
+            }
+            let ws = tokio_tungstenite::WebSocketStream::from_raw_socket(s, tokio_tungstenite::tungstenite::protocol::Role::Client, None).await;
+            let target = echo_target().await;
+            let mux = penguin_mux::Multiplexor::new(ws);
+            let work = async {
+                let mut st = mux.new_stream_channel(b"127.0.0.1", target).await.map_err(|e| format!("stream request failed: {e}"))?;
+                st.write_all(b"tunnel?").await.map_err(|e| format!("write failed: {e}"))?;
+                let mut back = [0u8; 7];
+                st.read_exact(&mut back).await.map_err(|e| format!("read failed: {e}"))?;
+                if &back != b"tunnel?" {
+                    return Err(format!("echo corrupted: {back:?}"));
+                }
+                Ok::<(), String>(())
+            };
+            match tokio::time::timeout(std::time::Duration::from_secs(10), work).await {
+                Ok(Ok(())) => Ok(()),
+                Ok(Err(e)) => Err(("c14-loopback:101-but-no-tunnel".to_string(), format!("101 after {:?} on the same connection but the tunnel does not work: {e}", c.earlier))),
+                Err(_) => Err(("c14-loopback:101-but-no-tunnel".to_string(), "101 but a stream through the tunnel got no echo within 10 s".to_string())),
+            }
+        }
+        .await;
+        server.abort();
+        res
+    });
+    match r {
+        Err((sig, msg)) if sig == "c14-harness" => Outcome::inconclusive(msg),
+        Err((sig, msg)) => Outcome::violation(sig, format!("{c:?}: {msg}")),
+        Ok(()) => Outcome::pass(true, vec!["keep-alive-sequence-then-valid-upgrade"]),
+    }
+}
+
 pub fn run(ctx: &Ctx, rep: &mut Report) {
     rep.rule = "requests = method {GET,POST,HEAD,PUT,OPTIONS} x path {/ws,/ws?x=1,/ws/,/WS,/wsx,/,/health,/version,/x} x for each of Connection, Upgrade, Sec-WebSocket-Version, Sec-WebSocket-Protocol, Sec-WebSocket-Key, X-Penguin-PSK a variant in {exact, absent, case-changed, prefix, suffix, padded, token list, empty, duplicate valid+valid / valid+invalid / invalid+valid, other, one letter replaced by its non-ASCII Unicode case partner (U+212A, U+017F)} \
                 x server configuration {no PSK, an ASCII PSK, a PSK with octets >= 0x80} x {obfs on/off} x {static 404 body, local deterministic backend}. ALL requests deviating from a valid upgrade in <= 2 places are enumerated under all 12 configurations, random requests beyond; the valid request and every single deviation also without an upgrade offered by the HTTP layer (HTTP/1.0, HTTP/2). \
@@ -655,5 +797,14 @@ pub fn run(ctx: &Ctx, rep: &mut Report) {
         20,
         |i| LoopCase { timeout: (i % 3) as u8, psk: (i / 3) % 2 == 1, obfs: (i / 6) % 2 == 1, req: (i / 12) as u8 },
         check_loopback,
+    );
+    // request sequences on one kept-alive connection: refused requests first, then a valid upgrade
+    ctx.prop(
+        rep,
+        "keep-alive-sequences",
+        ctx.tier.pick(48, 1_000),
+        8,
+        || (0u8..3, any::<bool>(), any::<bool>(), prop::collection::vec(1u8..10, 1..=3)).prop_map(|(timeout, psk, obfs, earlier)| SeqCase { timeout, psk, obfs, earlier }),
+        check_keepalive_sequence,
     );
 }
